@@ -131,6 +131,51 @@ def httpSvcFinish : HSSt → Bytes → List Ev
 
 def httpSvc : Proto HSSt Ev := { next := httpSvcNext, finish := httpSvcFinish }
 
+/-! ### the services that serve one request per connection (elasticsearch, docker, eos, ethereum, cwmp)
+
+`services/elasticsearch`, `services/docker`: the first 1024 bytes of the body are recorded (`io.ReadFull`), also when
+the stream ends inside the body; `services/eos`, `services/ethereum`, `services/cwmp-tr069.go`: the whole body
+(`ioutil.ReadAll`; a body cut short is an error and nothing is reported); ethereum and cwmp report nothing for a
+request without a body, cwmp only reads the body of a POST. -/
+
+structure OneCfg where
+  kind : String
+  lim : Option Nat        -- how much of the body is recorded (`none`: all of it)
+  partialAtEnd : Bool     -- a body cut short by the end of the stream is reported with what arrived
+  needBody : Bool         -- a request without a body is not reported
+  postOnly : Bool         -- only POST requests are reported
+  deriving Repr
+
+def recBody (c : OneCfg) (b : Bytes) : Bytes := match c.lim with | some k => b.take k | none => b
+
+/-- "POST" -/
+def mPOST : Bytes := [80, 79, 83, 84]
+
+def oneEvs (c : OneCfg) (m t body : Bytes) : List Ev :=
+  if c.postOnly && m != mPOST then [] else [{ kind := c.kind, fields := [m, t, recBody c body] }]
+
+def oneNext (c : OneCfg) : HSSt → P (List Ev × HSSt)
+  | .closed => fun _ => none
+  | .open => bindP httpHead (fun r => match r with
+      | some (m, t, 0) => pureP (if c.needBody then [] else oneEvs c m t [], .closed)
+      | some (m, t, n + 1) => pureP ([], .body m t n)
+      | none => pureP ([], .closed))
+  | .body m t n => bindP (takeN (n + 1)) (fun body => pureP (oneEvs c m t body, .closed))
+
+def oneFinish (c : OneCfg) : HSSt → Bytes → List Ev
+  | .body m t _, buf => if c.partialAtEnd then oneEvs c m t buf else []
+  | _, _ => []
+
+def oneSvc (c : OneCfg) : Proto HSSt Ev := { next := oneNext c, finish := oneFinish c }
+
+def oneCfgOf (svc : String) : Option OneCfg :=
+  if svc = "elasticsearch" then some { kind := "elasticsearch", lim := some 1024, partialAtEnd := true, needBody := false, postOnly := false }
+  else if svc = "docker" then some { kind := "docker", lim := some 1024, partialAtEnd := true, needBody := false, postOnly := false }
+  else if svc = "eos" then some { kind := "eos", lim := none, partialAtEnd := false, needBody := false, postOnly := false }
+  else if svc = "ethereum" then some { kind := "ethereum", lim := none, partialAtEnd := false, needBody := true, postOnly := false }
+  else if svc = "cwmp" then some { kind := "cwmp", lim := none, partialAtEnd := false, needBody := true, postOnly := true }
+  else none
+
 /-- bytes up to (not including) the first NUL, and what follows it; none without a NUL -/
 def cstr (b : Bytes) : Option (Bytes × Bytes) :=
   match cstrAux [] b with
@@ -198,6 +243,15 @@ def segHttpDriver (segsHex : List String) : String :=
   match segsHex.mapM unhex with
   | some ss => showEvs (eventsOf httpSvc .open ss)
   | none => "bad-op"
+
+/-- `seg1 <service> <segment hex> ...` : the one-request services -/
+def segOneDriver (args : List String) : String :=
+  match args with
+  | svc :: segsHex =>
+    match oneCfgOf svc, segsHex.mapM unhex with
+    | some c, some ss => showEvs (eventsOf (oneSvc c) .open ss)
+    | _, _ => "bad-op"
+  | _ => "bad-op"
 
 def dgramDriver (args : List String) : String :=
   match args with
